@@ -1021,6 +1021,21 @@ class Engine:
         spec = self.c.loops.get(ordn)
         if spec is None:
             raise OutOfReach(f"{self.c.key}: for loop #{ordn} (line {s.lineno}) has no invariant")
+        # the iterable must not be a live container the body (or an external it calls) may modify: a copy ([:], list(), tuple()) is
+        # required for the per-element reasoning of the loop cut to be meaningful
+        live = self.dotted(s.iter)
+        if live is not None:
+            mods = set()
+            for call in [x_ for b_ in s.body for x_ in ast.walk(b_) if isinstance(x_, ast.Call)]:
+                dn = self.dotted(call.func)
+                summ = self.c.externals.get(dn or "")
+                if summ is None and isinstance(call.func, ast.Attribute):
+                    summ = self.c.externals.get("*." + call.func.attr)
+                mods.update((summ or {}).get("modifies", []))
+            if live in mods:
+                self.path_label.append(f"L{ordn}")
+                self.emit("iter-mutation", z3.BoolVal(False), clause=f"loop iterates over {live}, which its body may modify (snapshot required)")
+                self.path_label.pop()
         lab = f"L{ordn}"
         st = self.st
         n = it["len"]
@@ -1888,6 +1903,8 @@ class Engine:
                 return self.call_closure(self.closures[nm], n)
             if nm in self.st.env and self.st.env[nm].k == "func" and isinstance(self.st.env[nm].t, ast.FunctionDef):
                 return self.call_closure(self.st.env[nm].t, n)
+            if nm in self.st.env and self.st.env[nm].k in ("opaque", "opt") and f"call:{nm}" in self.c.externals:
+                return self.ext_call(self.c.externals[f"call:{nm}"], nm, n)
             if nm in self.st.env and self.st.env[nm].k in ("opaque", "opt") and "call:opaque" in self.c.externals:
                 return self.ext_call(self.c.externals["call:opaque"], nm, n)
             r = self.builtin_call(nm, n)
@@ -2073,6 +2090,8 @@ class Engine:
         return None
 
     def call_closure(self, fdef: ast.FunctionDef, n: ast.Call):
+        if isinstance(fdef, ast.AsyncFunctionDef):
+            return V("opaque", z3.Const(fresh_name("coroutine"), opaque_sort("Coroutine")), "Coroutine")
         # inline: shares the enclosing environment (reads of free variables, nonlocal writes);
         # parameters and plain locals shadow and are restored afterwards
         params = [a.arg for a in fdef.args.args]
